@@ -1,0 +1,104 @@
+//go:build verif
+// +build verif
+
+package server
+
+// Verification hooks for property C07 (add-only, compiled with -tags verif):
+// several sessions of one namespace, built offline (no listener, no health
+// checks), planning statements with the real SessionExecutor.getPlan.
+
+import (
+	"fmt"
+
+	"github.com/XiaoMi/Gaea/log"
+	"github.com/XiaoMi/Gaea/models"
+	"github.com/XiaoMi/Gaea/mysql"
+	"github.com/XiaoMi/Gaea/parser"
+	"github.com/XiaoMi/Gaea/proxy/plan"
+	"github.com/XiaoMi/Gaea/util"
+)
+
+// VerifC07World is a Manager that serves one namespace, and sessions of it.
+type VerifC07World struct {
+	m    *Manager
+	srv  *Server
+	name string
+	sess []*SessionExecutor
+}
+
+// VerifC07NewWorld builds the namespace from its configuration with NewNamespace
+// (Init, which starts the health checks, is not called), puts it into a new
+// Manager whose SQL logger is lg, and opens `sessions` sessions of user `user`.
+func VerifC07NewWorld(nsCfg *models.Namespace, lg log.Logger, serverVersion string, sessions int, user string) (*VerifC07World, error) {
+	ns, err := NewNamespace(nsCfg, DefaultDatacenter)
+	if err != nil {
+		return nil, err
+	}
+	if _, ok := ns.userProperties[user]; !ok {
+		return nil, fmt.Errorf("user %s not in namespace %s", user, nsCfg.Name)
+	}
+	m := NewManager()
+	sm := NewStatisticManager()
+	sm.manager = m
+	sm.generalLogger = lg
+	m.statistics = sm
+	current, _, _ := m.switchIndex.Get()
+	nsMgr := NewNamespaceManager()
+	nsMgr.namespaces[ns.name] = ns
+	nsMgr.serverIDC = DefaultDatacenter
+	m.namespaces[current] = nsMgr
+	um, err := CreateUserManager(map[string]*models.Namespace{nsCfg.Name: nsCfg})
+	if err != nil {
+		return nil, err
+	}
+	m.users[current] = um
+
+	srv := new(Server)
+	srv.manager = m
+	srv.ServerVersion = util.CompactServerVersion(serverVersion)
+	srv.ServerVersionCompareStatus = util.NewVersionCompareStatus(serverVersion)
+
+	w := &VerifC07World{m: m, srv: srv, name: ns.name}
+	for i := 0; i < sessions; i++ {
+		se := newSessionExecutor(m)
+		se.namespace = ns.name
+		se.user = user
+		se.clientAddr = fmt.Sprintf("127.0.0.1:%d", 1000+i)
+		cc := new(Session)
+		cc.proxy = srv
+		cc.manager = m
+		cc.namespace = ns.name
+		cc.c = &ClientConn{Conn: &mysql.Conn{}}
+		cc.c.SetConnectionID(uint32(i + 1))
+		cc.executor = se
+		se.session = cc
+		se.SetCollationID(mysql.DefaultCollationID)
+		se.SetCharset(mysql.DefaultCharset)
+		se.SetContextNamespace()
+		se.userPriv = ns.userProperties[user].RWFlag
+		se.userType = ns.userProperties[user].OtherProperty
+		w.sess = append(w.sess, se)
+	}
+	return w, nil
+}
+
+// Namespace returns the namespace every session of the world uses.
+func (w *VerifC07World) Namespace() *Namespace { return w.m.GetNamespace(w.name) }
+
+// GetPlan runs SessionExecutor.getPlan for one statement of session i whose
+// current database is db, with the request context handleQuery gives it.
+func (w *VerifC07World) GetPlan(i int, db, sql string) (plan.Plan, error) {
+	se := w.sess[i]
+	se.db = db
+	reqCtx := util.NewRequestContext()
+	reqCtx.SetStmtType(parser.Preview(sql))
+	return se.getPlan(reqCtx, se.GetNamespace(), db, sql, true)
+}
+
+// FieldListSlice is the first thing handleFieldList does for COM_FIELD_LIST of
+// `table` in a session whose current database is db: the slice to ask.
+func (w *VerifC07World) FieldListSlice(i int, db, table string) string {
+	se := w.sess[i]
+	se.db = db
+	return se.GetNamespace().GetRouter().GetRule(se.GetDatabase(), table).GetSlice(0)
+}
